@@ -184,3 +184,34 @@ class Check:
         print("%s %s: %d rules, %d obligations, %d discharged, %d known findings, %d violations, %.1fs"
               % (self.prop, self.tier, len(self.rules), obligations, discharged, len(seen_known), len(new), wall))
         return 1 if new else 0
+
+
+class RuleAlias(object):
+    """present a check context to a rule function of another property under this property's rule id"""
+
+    def __init__(self, chk, mapping, note):
+        self._chk, self._map, self._note = chk, mapping, note
+
+    def _r(self, rule):
+        return self._map.get(rule, rule)
+
+    def rule(self, rule, desc):
+        self._chk.rule(self._r(rule), "%s -- %s" % (self._note, desc))
+
+    def ok(self, rule, n=1):
+        self._chk.ok(self._r(rule), n)
+
+    def fail(self, rule, key, msg, where="", detail=None, kind="violation"):
+        self._chk.fail(self._r(rule), key, msg, where, detail, kind)
+
+    def obligation(self, rule, cond, key, msg, where="", detail=None):
+        return self._chk.obligation(self._r(rule), cond, key, msg, where, detail)
+
+    def floor(self, rule, what, count, floor):
+        self._chk.floor(self._r(rule), what, count, floor)
+
+    def guard(self, rule, key, fn, *a, **kw):
+        return self._chk.guard(self._r(rule), key, fn, *a, **kw)
+
+    def __getattr__(self, name):
+        return getattr(self._chk, name)
